@@ -156,6 +156,10 @@ Definition emit (s : hstate) (o : outmsg) : hstate :=
   | _ => s
   end.
 
+(* outcome of verifying one message *)
+Inductive vres := VOk | VBad | VHash.
+Definition vres_ok (v : vres) : bool := match v with VOk => true | _ => false end.
+
 Section Oracles.
   (* digest of the broadcast view of round r: fingerprints of the stored broadcasts in party order *)
   Variable view_hash : nat -> list N -> N.
@@ -206,26 +210,36 @@ Section Oracles.
         && forallb (fun e => match e with (r', _, m) => negb (r' =? r) || (m_bv m =? prev)%N end) (h_qb s)
     end.
 
-  (* verifyMessage for a p2p message of the current round; true = ok (or postponed), false = error *)
-  Definition verify_p2p (s : hstate) (m : msg) : bool :=
-    if negb (existsb (Nat.eqb (m_round m)) (h_reached s)) then true
+  (* sameBroadcastView: the view digest attached to m equals our digest of the previous round's broadcasts (if we have one) *)
+  Definition same_view (s : hstate) (m : msg) : bool :=
+    match hget (h_hashes s) (m_round m - 1) with
+    | None => true
+    | Some prev => (m_bv m =? prev)%N
+    end.
+
+  (* verifyMessage for a p2p message of the current round: ok (or postponed) / rejected (sender named) /
+     sent under a different broadcast view (nobody named) *)
+  Definition verify_p2p (s : hstate) (m : msg) : vres :=
+    if negb (existsb (Nat.eqb (m_round m)) (h_reached s)) then VOk
     else if sh_bcast (h_shape s) (m_round m) &&
             match qget (h_qb s) (m_round m) (m_from m) with Some _ => false | None => true end
-    then true                                           (* wait for the sender's broadcast *)
+    then VOk                                           (* wait for the sender's broadcast *)
+    else if negb (same_view s m) then VHash
     else match sh_p2p (h_shape s) (m_round m) with
-         | NoP2P => false       (* MessageContent() == nil: cbor.Unmarshal into nil fails *)
-         | _ => m_valid m
+         | NoP2P => VBad       (* MessageContent() == nil: cbor.Unmarshal into nil fails *)
+         | _ => if m_valid m then VOk else VBad
          end.
 
   (* verifyBroadcastMessage; chains the queued p2p message of the same sender *)
-  Definition verify_bcast (s : hstate) (m : msg) : bool :=
-    if negb (existsb (Nat.eqb (m_round m)) (h_reached s)) then true
-    else if negb (sh_bcast (h_shape s) (m_round m)) then false   (* "got broadcast message when none was expected" *)
-    else if negb (m_valid m) then false
+  Definition verify_bcast (s : hstate) (m : msg) : vres :=
+    if negb (existsb (Nat.eqb (m_round m)) (h_reached s)) then VOk
+    else if negb (same_view s m) then VHash
+    else if negb (sh_bcast (h_shape s) (m_round m)) then VBad   (* "got broadcast message when none was expected" *)
+    else if negb (m_valid m) then VBad
     else match sh_p2p (h_shape s) (m_round m) with
-         | NoP2P => true
+         | NoP2P => VOk
          | _ => match qget (h_qp s) (m_round m) (m_from m) with
-                | None => true
+                | None => VOk
                 | Some p => verify_p2p s p
                 end
          end.
@@ -251,16 +265,18 @@ Section Oracles.
                  emit_all (emit s1 o) l'
     end.
 
-  (* first queued message of the new round that fails verification (in party order), if any *)
-  Definition first_bad (s : hstate) (r : nat) : option party :=
+  (* first queued message of the new round that fails verification (in party order), if any, with the kind of failure *)
+  Definition queued_verdict (s : hstate) (r : nat) (j : party) : vres :=
     if sh_bcast (h_shape s) r then
-      find (fun j => match qget (h_qb s) r j with
-                     | Some m => negb (verify_bcast s m)
-                     | None => false end) (others s)
+      match qget (h_qb s) r j with Some m => verify_bcast s m | None => VOk end
     else
-      find (fun j => match qget (h_qp s) r j with
-                     | Some m => negb (verify_p2p s m)
-                     | None => false end) (others s).
+      match qget (h_qp s) r j with Some m => verify_p2p s m | None => VOk end.
+
+  Definition first_bad (s : hstate) (r : nat) : option (party * vres) :=
+    match find (fun j => negb (vres_ok (queued_verdict s r j))) (others s) with
+    | Some j => Some (j, queued_verdict s r j)
+    | None => None
+    end.
 
   (* MultiHandler.finalize *)
   Fixpoint finalize (fuel : nat) (s : hstate) : hstate :=
@@ -292,7 +308,8 @@ Section Oracles.
                                  (h_out s3) (h_pending s3) (h_closes s3) (h_rt s3)) None
                     else
                       match first_bad s3 nr with
-                      | Some j => abort s3 (Some ([j], EVerify))
+                      | Some (_, VHash) => abort s3 (Some ([], EBroadcastHash))
+                      | Some (j, _) => abort s3 (Some ([j], EVerify))
                       | None => finalize fuel' s3
                       end
               | _ => s2
@@ -313,9 +330,11 @@ Section Oracles.
         else
           let s1 := store s m in
           if negb (h_cur s1 =? m_round m) then s1
-          else if (if m_bcast m then verify_bcast s1 m else verify_p2p s1 m)
-               then finalize (fuel_of s1) s1
-               else abort s1 (Some ([m_from m], EVerify))
+          else match (if m_bcast m then verify_bcast s1 m else verify_p2p s1 m) with
+               | VOk => finalize (fuel_of s1) s1
+               | VBad => abort s1 (Some ([m_from m], EVerify))
+               | VHash => abort s1 (Some ([], EBroadcastHash))
+               end
     | _ => s
     end.
 
